@@ -75,6 +75,15 @@ def corpus():
         reqs.post_allocs({K(3): {'allocs': {P(1): {'VCPU': 1}}, 'project': 'p3', 'user': 'u3'},
                           K(1): {'allocs': {P(2): {'VCPU': 4}}, 'cgen': 1, 'project': 'p9'}}),
         ok=False)
+    # the "move" shape (nova migrations): one consumer gives up everything, another takes over
+    add('POST allocations move: existing consumer cleared, new consumer written', used,
+        reqs.post_allocs({K(1): {'allocs': {}, 'cgen': 1},
+                          K(3): {'allocs': {P(1): {'VCPU': 1, 'DISK_GB': 2}}, 'project': 'p3',
+                                 'user': 'u3'}}))
+    add('POST allocations move rejected: new consumer over capacity', used,
+        reqs.post_allocs({K(1): {'allocs': {}, 'cgen': 1},
+                          K(3): {'allocs': {P(2): {'VCPU': 4}}, 'project': 'p3', 'user': 'u3'}}),
+        ok=False)
     add('DELETE allocations', used, reqs.del_alloc(K(2)))
     add('reshaper move VCPU of P1 to P3', used,
         reqs.reshaper({P(1): (5, {'DISK_GB': {'total': 10}}), P(3): (0, {'VCPU': {'total': 8}})},
@@ -572,8 +581,21 @@ def judge_fault(w, entry, faults):
                          '%s: %s inside %s: no statement was re-executed (%d vs %d)' % (
                              name, retry_kind, retry_fn, r['nstmts'], len(b['stmts']))))
     if 'restart' in entry and not ok:
-        # a failed start-up sync must be repairable by the next start
+        # a failed start-up sync must be repairable by the next start: first by a reload inside
+        # the same process (flags as the failed attempt left them), then by a new process
         w.probe.cur = None
+        from vp.snapshot import STD_CLASSES, STD_TRAITS
+        try:
+            w.h.resync()
+            d1 = Dump(w.h.dbfile)
+            if STD_TRAITS - d1.traits or any(d1.classes.get(n) != i for i, n in
+                                             enumerate(STD_CLASSES)):
+                viol.append(('c17-reload-incomplete:%s' % sigbase, 'after a failed start-up '
+                             'sync, running the start-up sync again in the same process leaves '
+                             'standard traits/classes missing or misnumbered'))
+        except Exception as e:
+            viol.append(('c17-reload-stuck:%s' % sigbase, 'start-up sync re-run in the same '
+                         'process after a failed sync raised %r' % e))
         try:
             w.h.restart()
         except Exception as e:
